@@ -1530,7 +1530,12 @@ class Interp(object):
         if site is not None:
             self._site += 1
             site = "%s#%d" % (site, self._site)
-        return ("call", fv, args, kwargs, site)
+        res = ("call", fv, args, kwargs, site)
+        if callee is not None and res not in p.types:
+            rts = [t for t in self.types._return_type(callee, 0) if t.startswith("C:")]
+            if len(rts) == 1:
+                p.types[res] = rts[0]
+        return res
 
     def bind_record(self, ci, obj, args, kwargs, p):
         for i, a in enumerate(args):
